@@ -8,7 +8,7 @@ def classify(req, obs, rule):
     """D16: exactly the requeuer cases whose prior counter is the string 9223372036854775807 and whose only
     complaint is the counter (the monitor rule requeuer_counter)."""
     f = req.split()
-    if f and f[0] == "rq" and len(f) == 8 and rule == "violated:requeuer_counter":
+    if f and f[0] in ("rq", "rqp") and len(f) == 8 and rule == "violated:requeuer_counter":
         if (_RETRIES_KEY_HEX + "=" + _MAXINT_HEX) in f[7].split(","):
             return "retries=MaxInt64"
     return None
@@ -18,7 +18,7 @@ def nontrivial(req, obs):
     f = req.split()
     if not f:
         return False
-    if f[0] in ("rq", "fanin", "fwd", "e2e", "fanout"):
+    if f[0] in ("rq", "rqp", "fanin", "fwd", "e2e", "fanout"):
         return True                      # a message went through a running component
     if f[0] == "fpub":
         return f[3] != "-"               # at least one message in the batch
@@ -34,6 +34,7 @@ PROP = {
         "Wm.Relay.requeuer_relays", "Wm.Relay.priorCounter_range", "Wm.Relay.priorCounter_cases",
         "Wm.Relay.requeuer_counter_partial", "Wm.Relay.requeuer_counter_overflow_witness", "Wm.Relay.requeuer_counts_up",
         "Wm.Relay.requeuer_settle", "Wm.Relay.requeuer_no_topic",
+        "Wm.Relay.requeuer_topic_from_consumed", "Wm.Relay.budget_applies_to_consumed",
         "Wm.Relay.valid_iff", "Wm.Relay.forwarder_relays", "Wm.Relay.invalid_envelope_never_forwarded",
         "Wm.Relay.passthrough_relays", "Wm.Relay.fanin_targets", "Wm.Relay.fanout_copies",
         "Wm.Relay.wrap_intact", "Wm.Relay.fwdPublish_once", "Wm.Relay.fwdPublish_refuses_empty_topic", "Wm.Relay.effTopic_ne_nil",
@@ -55,6 +56,10 @@ PROP = {
             "finding), 2^63, MinInt64, 1_0, non-ASCII digits, ...}, 150 (quick) / 4500 (thorough) random messages with arbitrary-byte "
             "uuids/metadata, topic generator ok/error, destination failing at random or from the k-th message on, cancelled contexts, "
             "12-fold repeated requeue of one message, concurrent bursts of 4..15 messages, Delay>0 with live and cancelled contexts. "
+            "rqp: GeneratePublishTopic functions that READ the message they are shown and record its metadata - retry budgets "
+            "'retries >= k -> dead_letter' for k in {1,2,3,5} with prior counters k-2..k+1, absent, non-numeric, '+n', ' n', plus random "
+            "(k, prior) pairs; topic named by a metadata value, including by the retries header itself; rule: the topic function is applied "
+            "to the message as consumed (counter not yet raised) and is shown exactly that metadata, the published message carries counter+1. "
             "fwd: Forwarder with AckWhenCannotUnwrap off/on x 21 payload classes (wrap, hand-written JSON, minimal, extra fields, "
             "case-insensitive keys, duplicate keys, nulls, empty destination, no destination, null, {}, garbage, empty, truncated, trailing "
             "bytes, wrong types, bad base64, array, string, number) x destination failing on every k-th message, plus concurrent bursts. "
